@@ -11,7 +11,7 @@ in comments together with machine-checked counterexamples, and the strongest tru
 as `C20_mul_comm_partial` (+ `C20_mul_comm_d_err`) and `C20_sub_eq_add_neg_partial`.
 -/
 namespace Apd.Props
-open Apd Apd.Oracle
+open Apd Apd.Oracle Apd.C20L
 
 /-- the specification's result for exact value `ex` in context `c` under mode `m` -/
 def S (c : Ctx) (ex : Exact) (m : Mode) : SpecOut := specRound { c with mode := m } ex
